@@ -281,26 +281,22 @@ fn c03_write_u32() {
     let mut sink: Sink<16> = Sink::new();
     let r = write_u32(&mut sink, v, width);
     assert!(r.is_ok());
-    // reference: decimal digits by division
-    let mut digits = [b'0'; 10];
-    let mut n = 0usize;
-    let mut x = v;
-    loop {
-        digits[n] = (x % 10) as u8 + b'0';
-        n += 1;
-        x /= 10;
-        if x == 0 {
-            break;
-        }
-    }
+    // the output is exactly max(width, number of digits) decimal digits with the right value
+    // (read back by multiplication - no division in the reference), zero-padded, never truncated
+    let n = 1 + (v >= 10) as usize + (v >= 100) as usize + (v >= 1_000) as usize + (v >= 10_000) as usize
+        + (v >= 100_000) as usize + (v >= 1_000_000) as usize + (v >= 10_000_000) as usize
+        + (v >= 100_000_000) as usize + (v >= 1_000_000_000) as usize;
     let total = if n > width { n } else { width };
     assert!(sink.len == total);
-    let i: usize = kani::any();
-    kani::assume(i < total);
-    // position i from the right
-    let from_right = total - 1 - i;
-    let expect = if from_right < n { digits[from_right] } else { b'0' };
-    assert!(sink.buf[i] == expect);
+    let mut acc: u64 = 0;
+    let mut i = 0;
+    while i < total {
+        let c = sink.buf[i];
+        assert!(c >= b'0' && c <= b'9');
+        acc = acc * 10 + (c - b'0') as u64;
+        i += 1;
+    }
+    assert!(acc == v as u64);
     kani::cover!(n == 10);
     kani::cover!(n < width);
     kani::cover!(n > width);
